@@ -11,6 +11,8 @@ c = json.load(open("tools/claims.json"))["claimed"]
 print(" ".join("OtelVerif.Props.%s drv_%s" % (p, p.lower()) for p in sorted(c)))
 PY
 )
+# regenerate every Gen/*.lean from /repo first: the build must not depend on a committed copy
+python3 tools/regen.py
 cd lean
 # shellcheck disable=SC2086
 flock .verif.lock lake build OtelVerif.Common.Line OtelVerif.Common.Audit $targets
